@@ -35,6 +35,7 @@ type Bool struct {
 type Float struct {
 	V float64
 	W uint8 // 32 or 64
+	U bool  // value unknown (parsed from symbolic digits): any use is inconclusive
 }
 
 // Str: sequence of bytes (Int W=8), possibly with rope segments (wDec / wOpaque).
